@@ -331,3 +331,68 @@ Proof. exact (source_accepted_values_safe C07_linebreaks_rejected). Qed.
 
 Print Assumptions C07_source_check_valid_is_model.
 Print Assumptions C07_source_linebreaks_rejected.
+
+(* ---------------------------------------------------------------- translator tie of the OMEN readers (T19)
+
+   gen/Loader2_gen.v is the translation of the Python text of lib_guesser/omen/input_file_io.py (load_rules,
+   _load_config, _load_alphabet, _load_ngrams, _load_length) and of lib_scorer/omen_scorer.py
+   (OmenScorer.__init__, _load_omen), redone on every run by harness/translate_loader2.py over the
+   dynamically typed runtime theories/Loader2Rt.v.  For EVERY world W (what configparser, int(), os.path.join
+   and the two ways of opening a file return: any line lists, any exceptions) the translated functions
+   compute the hand-written models of theories/Loader2Model.v, which read a level file line by line the way
+   TextFile.level_items / ln_levels / cp_dict do (C07_source_omen_lines_are_level_items ...). *)
+From Pcfg Require Loader2Rt Loader2Model Loader2GenProofs Loader2OmenFacts.
+From PcfgGen Require Loader2_gen.
+
+(* load_rules called on an empty dict: True and the dict of Loader2Model.enc_omen_tables (alphabet_encoding,
+   ngram, max_level = 10, alphabet, ip / ln as {0..10: list}, ep, cp as nested dicts in file order) when every
+   file reads, else False (the exception is one `except Exception` catches) *)
+Theorem C07_source_omen_load_rules_is_model :
+  forall (fo : fops) (C S : Type) (W : Loader2Rt.world fo C S) (iws : N -> bool) (dz : list N),
+  (forall s, Loader2Rt.w_pint W s = parse_int iws dz s) -> forall dir : pstr,
+  match Loader2Model.omen_guesser_load fo W iws dz dir with
+  | inl t => Loader2_gen.py_omen_load_rules fo W (Loader2Rt.VStr dir) (Loader2Rt.VDict []) =
+             Loader2Rt.XDone (Loader2Model.enc_omen_tables t, Loader2Rt.VBool true)
+  | inr e => Loader2Rt.x_isa (Loader2Rt.XC LoaderRt.CException) e = true ->
+             exists g', Loader2_gen.py_omen_load_rules fo W (Loader2Rt.VStr dir) (Loader2Rt.VDict []) =
+                        Loader2Rt.XDone (g', Loader2Rt.VBool false)
+  end.
+Proof. exact (@Loader2GenProofs.omen_load_rules_cases). Qed.
+
+(* OmenScorer(base_directory, encoding, max_omen_level) on a fresh instance: the object with the attributes of
+   Loader2Model.enc_scorer (ip / cp as dicts in file order, a later line of the same n-gram overwrites; ln with
+   the leading '10'; ngram = the length of the n-gram of the first CP line, -1 without one; max_len), or the
+   exception of the first line that does not read *)
+Theorem C07_source_omen_scorer_init_is_model :
+  forall (fo : fops) (C S : Type) (W : Loader2Rt.world fo C S) (iws : N -> bool) (dz : list N),
+  (forall s, Loader2Rt.w_pint W s = parse_int iws dz s) ->
+  forall (base enc : pstr) (vmax : Loader2Rt.pyval (F fo) C S),
+  Loader2_gen.py_omen_scorer_init fo W (Loader2Rt.VObj []) (Loader2Rt.VStr base) (Loader2Rt.VStr enc) vmax =
+  match Loader2Model.omen_scorer_load fo W iws dz base enc with
+  | inl t => Loader2Rt.XDone (Loader2Model.enc_scorer (Loader2Rt.VStr enc) vmax t, Loader2Rt.VNone)
+  | inr e => Loader2Rt.XFail e
+  end.
+Proof. exact (@Loader2GenProofs.omen_scorer_init_eq). Qed.
+
+(* the line-by-line models read what the readers of TextFile.v (the models of the round trips above and of the
+   correspondence) read *)
+Theorem C07_source_omen_lines_are_level_items : forall (iws : N -> bool) (dz : list N) maxlvl lines,
+  level_items iws dz maxlvl lines =
+  match Loader2Model.level_lines iws dz maxlvl lines with inl its => Some its | inr _ => None end.
+Proof. exact Loader2OmenFacts.level_lines_items. Qed.
+
+Theorem C07_source_omen_lines_are_ln_levels : forall (iws : N -> bool) (dz : list N) maxlvl lines,
+  ln_levels iws dz maxlvl lines =
+  match Loader2Model.ln_lines iws dz maxlvl lines with inl ls => Some ls | inr _ => None end.
+Proof. exact Loader2OmenFacts.ln_lines_levels. Qed.
+
+Theorem C07_source_omen_cp_lines_are_cp_dict : forall (iws : N -> bool) (dz : list N) maxlvl lines,
+  match Loader2Model.cp_lines iws dz maxlvl lines [] with
+  | inl d => exists its, level_items iws dz maxlvl lines = Some its /\ cp_dict its = Some d
+  | inr _ => match level_items iws dz maxlvl lines with Some its => cp_dict its = None | None => True end
+  end.
+Proof. exact Loader2OmenFacts.cp_lines_is_cp_dict. Qed.
+
+Print Assumptions C07_source_omen_load_rules_is_model.
+Print Assumptions C07_source_omen_scorer_init_is_model.
+Print Assumptions C07_source_omen_cp_lines_are_cp_dict.
